@@ -20,6 +20,7 @@ import (
 	"time"
 
 	"github.com/alibaba/sentinel-golang/core/base"
+	"github.com/alibaba/sentinel-golang/core/config"
 	"github.com/alibaba/sentinel-golang/util"
 )
 
@@ -40,7 +41,9 @@ type ThrottlingChecker struct {
 func NewThrottlingChecker(owner *TrafficShapingController, timeoutMs uint32, statIntervalMs uint32) *ThrottlingChecker {
 	var statIntervalNs int64
 	if statIntervalMs == 0 {
-		statIntervalNs = 1000 * MillisToNanosOffset
+		// unset: the threshold counts over the resource's default statistic interval, as it does for a
+		// Reject rule and for the warm-up calculation
+		statIntervalNs = int64(config.MetricStatisticIntervalMs()) * MillisToNanosOffset
 	} else {
 		statIntervalNs = int64(statIntervalMs) * MillisToNanosOffset
 	}
